@@ -105,6 +105,8 @@ def strip_intrinsics(snap):
                 # imported symbols link to objects of other program units (not part of the cloned scope chain): their
                 # names / links are rendered anonymously so that edits of those other units do not show up here
                 v = re.sub(r'(ProcedureType|DerivedType)\([^;]*;', r'\1(*;', v)
+                v = re.sub(r'fn=(True|False); ', '', v)            # is_function / return type are read through the link
+                v = re.sub(r'; returns=[^;)>]*', '', v)
                 d[k] = re.sub(r'(own|ext):[^;,)>]*', 'lnk', v)
     return snap
 
